@@ -956,3 +956,211 @@ func (p *Program) callerGuaranteesInput(fn *ssa.Function, min int64) bool {
 	}
 	return sites > 0
 }
+
+// ---------- R18.10 output position at the exits of the decode loop ----------
+
+// The decode loop stores a packed table entry through its output cursor and then advances the cursor by the
+// entry's symbol count; when the last symbol of the entry is not a literal (end-of-block or a length) the
+// cursor is moved back by one. Whatever else is added while a match is prepared has to be taken back before
+// the routine leaves through an error exit. The rule explores every path from the symbol boundary (the loop
+// head) to the common exit and checks the net movement of the cursor:
+//   only symbol-count terms, minus one exactly when the path took the "last symbol is not a literal" branch.
+func ruleR18_10(p *Program, r *Report) {
+	r.Expect("R18.10", 1)
+	if asmLoadFailures(p, r, "R18.10") {
+		return
+	}
+	for _, u := range p.Asm().Units {
+		if u.Text.Name != "decodeHuffmanAsmArchV3" {
+			continue
+		}
+		ins := u.Text.Instrs
+		key := u.Text.Name + "|output position at exits"
+		// cursor register: the one stored to the `written` result
+		cur := ""
+		exitIdx := -1
+		for i, in := range ins {
+			if d := in.dest(); d >= 0 && in.Ops[d].Kind == OpFP && in.Ops[d].Name == "written" && in.Ops[0].Kind == OpReg {
+				cur = baseReg(in.Ops[0].Reg)
+				exitIdx = i
+			}
+		}
+		// the exit sequence starts at the label block containing that store
+		exitStart := exitIdx
+		for exitStart > 0 && len(ins[exitStart].Labels) == 0 {
+			exitStart--
+		}
+		// loop head: the label with the most backward jumps into it
+		back := map[int]int{}
+		for i, in := range ins {
+			if asmJumps[in.Mnem] {
+				if t, ok := u.Text.labelIdx[in.Ops[0].Name]; ok && t <= i {
+					back[t]++
+				}
+			}
+		}
+		head, best := -1, 0
+		for t, n := range back {
+			if n > best || (n == best && t < head) {
+				head, best = t, n
+			}
+		}
+		if cur == "" || head < 0 || exitIdx < 0 {
+			r.Undecided("R18.10", key, p.asmPos(u, ins[0]), "cursor register, loop head and exit sequence are identified", fmt.Sprintf("cursor=%q head=%d exit=%d", cur, head, exitIdx))
+			continue
+		}
+		type state struct {
+			idx     int
+			k       int64  // constant part
+			counts  int    // number of symbol-count additions
+			pending string // other terms, canonical: "+R15;-R14;..." ; "!" marks a term that can no longer be cancelled
+			nonLit  bool
+			afterStore bool // previous instruction stored through the cursor
+			cmp256  string  // register compared with $256 by the previous CMPQ ("" if none)
+		}
+		seen := map[state]bool{}
+		var bad []string
+		var work []state
+		work = append(work, state{idx: head})
+		addTerm := func(pend string, sign string, reg string) string {
+			opp := "+"
+			if sign == "+" {
+				opp = "-"
+			}
+			parts := []string{}
+			cancelled := false
+			for _, t := range strings.Split(pend, ";") {
+				if t == "" {
+					continue
+				}
+				if !cancelled && t == opp+reg {
+					cancelled = true
+					continue
+				}
+				parts = append(parts, t)
+			}
+			if !cancelled {
+				parts = append(parts, sign+reg)
+			}
+			sort.Strings(parts)
+			return strings.Join(parts, ";")
+		}
+		staleReg := func(pend string, reg string) string {
+			parts := []string{}
+			for _, t := range strings.Split(pend, ";") {
+				if t == "" {
+					continue
+				}
+				if strings.TrimLeft(t, "+-") == reg {
+					t = t + "!"
+				}
+				parts = append(parts, t)
+			}
+			sort.Strings(parts)
+			return strings.Join(parts, ";")
+		}
+		steps := 0
+		for len(work) > 0 && steps < 200000 {
+			steps++
+			st := work[len(work)-1]
+			work = work[:len(work)-1]
+			if seen[st] {
+				continue
+			}
+			seen[st] = true
+			if st.idx >= exitStart && st.idx <= exitIdx {
+				// reached the exit sequence: judge
+				okK := (st.nonLit && st.k == -1) || (!st.nonLit && st.k == 0)
+				if st.pending != "" || !okK {
+					bad = append(bad, fmt.Sprintf("net cursor movement %+d with %d symbol-count term(s), extra terms [%s], last symbol %s", st.k, st.counts, st.pending, map[bool]string{true: "not a literal", false: "literal/none"}[st.nonLit]))
+				}
+				continue
+			}
+			in := ins[st.idx]
+			nx := st
+			nx.afterStore = false
+			nx.cmp256 = ""
+			d := in.dest()
+			// store through the cursor: the next addition of a register is the symbol count
+			if d >= 0 && in.Ops[d].Kind == OpMem && in.Ops[d].Base == cur && in.Ops[d].Index == "" && in.Ops[d].Off == 0 {
+				nx.afterStore = true
+			}
+			if in.Mnem == "CMPQ" && len(in.Ops) == 2 && in.Ops[0].Kind == OpReg && in.Ops[1].Kind == OpImm && in.Ops[1].Imm == 256 {
+				nx.cmp256 = baseReg(in.Ops[0].Reg)
+			}
+			if d >= 0 && in.Ops[d].Kind == OpReg {
+				dr := baseReg(in.Ops[d].Reg)
+				if dr == cur {
+					switch {
+					case (in.Mnem == "ADDQ" || in.Mnem == "SUBQ") && in.Ops[0].Kind == OpImm:
+						if in.Mnem == "ADDQ" {
+							nx.k += in.Ops[0].Imm
+						} else {
+							nx.k -= in.Ops[0].Imm
+						}
+					case (in.Mnem == "ADDQ" || in.Mnem == "SUBQ") && in.Ops[0].Kind == OpReg:
+						reg := baseReg(in.Ops[0].Reg)
+						if in.Mnem == "ADDQ" && st.afterStore {
+							nx.counts++
+						} else if in.Mnem == "ADDQ" {
+							nx.pending = addTerm(nx.pending, "+", reg)
+						} else {
+							nx.pending = addTerm(nx.pending, "-", reg)
+						}
+					case in.Mnem == "LEAQ" && in.Ops[0].Kind == OpMem && in.Ops[0].Base == cur:
+						nx.k += in.Ops[0].Off
+						if in.Ops[0].Index != "" {
+							if in.Ops[0].Scale != 1 {
+								nx.pending = addTerm(nx.pending, "+", fmt.Sprintf("%d*%s", in.Ops[0].Scale, in.Ops[0].Index))
+							} else {
+								nx.pending = addTerm(nx.pending, "+", baseReg(in.Ops[0].Index))
+							}
+						}
+					case in.Mnem == "INCQ":
+						nx.k++
+					case in.Mnem == "DECQ":
+						nx.k--
+					default:
+						nx.pending = addTerm(nx.pending, "+", "?"+in.Mnem)
+					}
+					if st.afterStore && !(in.Mnem == "ADDQ" && in.Ops[0].Kind == OpReg) {
+						nx.afterStore = false
+					}
+				} else if nx.pending != "" {
+					nx.pending = staleReg(nx.pending, dr)
+				}
+			}
+			for _, s := range u.Flow.Succs[st.idx] {
+				n2 := nx
+				n2.idx = s
+				// taken branch of JE/JG after CMPQ reg,$256: the last symbol is not a literal
+				if asmJumps[in.Mnem] && in.Mnem != "JMP" && st.cmp256 != "" {
+					t, ok := u.Text.labelIdx[in.Ops[0].Name]
+					taken := ok && t == s
+					switch in.Mnem {
+					case "JE", "JG", "JGE":
+						if taken {
+							n2.nonLit = true // symbol == 256 or > 256
+						}
+					case "JL":
+						if !taken {
+							n2.nonLit = true // not below 256
+						}
+					}
+				}
+				if asmJumps[in.Mnem] {
+					n2.cmp256 = st.cmp256
+				}
+				if s == head {
+					continue // next symbol boundary: a new exploration starts there
+				}
+				work = append(work, n2)
+			}
+		}
+		sort.Strings(bad)
+		if len(bad) > 3 {
+			bad = append(bad[:3], fmt.Sprintf("... %d more", len(bad)-3))
+		}
+		r.Check(len(bad) == 0 && steps < 200000, "R18.10", key, p.asmPos(u, ins[head]), fmt.Sprintf("on every path from the symbol boundary to the exit the output cursor %s has moved only by symbol counts, minus one exactly when the last symbol is not a literal (%d states explored)", cur, len(seen)), strings.Join(bad, " | "))
+	}
+}
